@@ -267,33 +267,94 @@ def c07(ctx):
     cli_keep_going(ctx)
 
 
+def run_cli_collect(argv):
+    """gemato.cli.main(argv) with the error log collected: (exit status, [[path, [diff names]] | ['<error>', class name]])"""
+    import logging
+    import gemato.cli
+    import gemato.exceptions as gx
+    items = []
+
+    class Collect(logging.Handler):
+        def emit(self, rec):
+            m = rec.msg
+            if isinstance(m, gx.ManifestMismatch):
+                items.append([m.path, [d[0] for d in m.diff]])
+            else:
+                items.append(['<error>', type(m).__name__])
+    h = Collect(level=logging.ERROR)
+    root = logging.getLogger()
+    old = root.level
+    root.addHandler(h)
+    root.setLevel(logging.ERROR)
+    try:
+        try:
+            rc = gemato.cli.main(argv)
+        except SystemExit as e:
+            rc = e.code if isinstance(e.code, int) else 2
+        except Exception as e:
+            rc = 'exception:' + type(e).__name__
+    finally:
+        root.removeHandler(h)
+        root.setLevel(old)
+    return rc, items
+
+
 def cli_keep_going(ctx):
-    import p_pgp
+    """`gemato verify --keep-going p1 p2 ...`: every requested path is scanned (each with a loader of its own, as the CLI does),
+    the reports are those of the library for each path in turn, and the exit status is 1 iff one of them failed"""
     r = ctx.rng('c07cli')
-    n = bad = 0
+    n = multi = 0
     with ET.Scratch() as sc:
-        for _ in range(60 if ctx.tier == 'quick' else 600):
+        for _ in range(150 if ctx.tier == 'quick' else 1500):
             c = gen_keepgoing_case(r)
+            dirs = [''] + [d for d in c.meta['dirs'] if d]
+            k = r.choice([1, 1, 2, 3])
+            paths = [r.choice(dirs) for _ in range(k)]
             b, s = sc.fresh()
             try:
                 c.tree.realise(b, s)
                 key = GT.order_key_for(c.meta['order_seed'])
+                # only start directories that (still) are directories and whose top-level Manifest is the tree's (not IGNOREd)
+                from gemato.find_top_level import find_top_level_manifest
+
+                def usable(p):
+                    try:
+                        return bool(p) and os.path.isdir(os.path.join(b, p)) and not os.path.islink(os.path.join(b, p)) \
+                            and find_top_level_manifest(os.path.join(b, p)) == os.path.join(b, 'Manifest')
+                    except Exception:
+                        return False
+                paths = [p if usable(p) else '' for p in paths]
                 with ET.ScandirOrder(key):
-                    rc = p_pgp.run_cli(['gemato', 'verify', '--keep-going', '--no-openpgp-verify', b])
-                    lib = ET.run_impl(b, 'Manifest', c.opts, False, True, [['verify', '', 1, []]], key)
+                    rc, items = run_cli_collect(['gemato', 'verify', '--keep-going', '--no-openpgp-verify'] + [os.path.join(b, p) if p else b for p in paths])
+                    libs = [ET.run_impl(b, 'Manifest', c.opts, False, True, [['verify', p, 1, []]], key) for p in paths]
             finally:
                 sc.cleanup(b, s)
             n += 1
-            if lib[0] == 'ok' and lib[1] and lib[1][0][0] == 'ok':
-                want = 0 if lib[1][0][1][0] == 1 else 1
-                if rc != want:
-                    bad += 1
-                    ctx.violation('spec', f'gemato verify --keep-going exited {rc} but the library reported '
-                                  f'{len(lib[1][0][1][1])} failures', {'tree': describe(c.tree), 'mutations': c.meta['mutations']})
-            elif isinstance(rc, int) and rc == 0:
-                ctx.violation('spec', 'gemato verify --keep-going exited 0 although the library raised',
-                              {'tree': describe(c.tree), 'lib': lib})
-    ctx.count('tree:cli-keep-going', n, n)
+            multi += k > 1
+            want_items, want_rc, raised = [], 0, False
+            for lib in libs:
+                if lib[0] == 'ok' and lib[1] and lib[1][0][0] == 'ok':
+                    ok, calls = lib[1][0][1]
+                    want_items += [[x[0], list(x[1])] for x in calls]
+                    if not ok:
+                        want_rc = 1
+                else:
+                    raised = True          # the library raised for this path: the CLI stops here with status 1
+                    want_rc = 1
+                    break
+            rp = {'tree': describe(c.tree), 'mutations': c.meta['mutations'], 'paths': paths, 'cli_exit': rc, 'cli_reports': items,
+                  'library_reports': want_items, 'library': [x if x[0] != 'ok' else x[1] for x in libs]}
+            if raised:
+                # the library raised (a library exception: logged, status 1; a genuine OS / decoding error: propagated): anything but success
+                if rc == 0:
+                    ctx.violation('spec', f'gemato verify --keep-going {paths} exited 0 although the library raised for one of the paths', rp)
+            elif rc != want_rc:
+                ctx.violation('spec', f'gemato verify --keep-going {paths} exited {rc}; the library verdicts for these paths give {want_rc}', rp)
+            got = [x for x in items if x[0] != '<error>']
+            if not raised and sorted(map(json.dumps, got)) != sorted(map(json.dumps, want_items)):
+                ctx.violation('spec', f'gemato verify --keep-going {paths} reported {len(got)} offending paths, the library reports {len(want_items)} '
+                              'for the same paths (C07: each offending path of the whole requested tree exactly once)', rp)
+    ctx.count('tree:cli-keep-going', n, n, dist={'runs_with_several_paths': multi})
 
 
 # --------------------------------------------------------------------------- C02
